@@ -120,7 +120,7 @@ func stepFP(x Inst) string {
 }
 
 func safeObserve(x Inst) (o Ev, bad bool) {
-	ci := invoke(Ev{"op": "Observe", "kind": x.Kind()}, func() { o = x.Observe() })
+	ci := invoke(Ev{"op": "Observe", "kind": x.Kind(), "fam": x.Fam(), "cfg": x.Cfg()}, func() { o = x.Observe() })
 	if ci.Panic || o == nil {
 		return Ev{"obspanic": ci.PMsg}, true
 	}
